@@ -95,6 +95,9 @@ pub fn run(ctx: &Ctx) -> i32 {
         for _ in 0..nmut {
             texts.push((join(&mutate_tokens(&toks, rng)), "token-mutant"));
         }
+        for _ in 0..(nmut / 3) {
+            texts.push((mutate_unicode(&base, rng), "non-ascii-character-inserted"));
+        }
         for _ in 0..(nmut / 5) {
             texts.push((format!("%start S %% {}", soup(rng, 12)), "token-soup"));
             texts.push((soup(rng, 12), "token-soup"));
@@ -145,7 +148,7 @@ pub fn run(ctx: &Ctx) -> i32 {
     let comparable = rep.counters.iter().filter(|(k, _)| k.ends_with("_rejected") || k.ends_with("_accepted")).map(|(_, v)| *v).sum::<u64>();
     let mut rep = rep;
     rep.count_n("comparable_pairs", comparable);
-    let rule = "case = text: valid generated grammars (with and without comments between arbitrary tokens), single/double token-level mutants (delete/insert/replace/swap/duplicate over the PAR token vocabulary) and token soup; parsed by parol::parser::parol_parser::parse in the harness and by parol_ls_parser::parse through the cfg(parol_verif) batch mode of the real parol-ls binary; a pair is compared only when both results are in {Ok, syntax/lexer error}; pairs where a semantic action aborted a parse are inconclusive; non-trivial = comparable pair; distinct by text";
+    let rule = "case = text: valid generated grammars (with and without comments between arbitrary tokens), single/double token-level mutants (delete/insert/replace/swap/duplicate over the PAR token vocabulary incl. identifiers with non-ASCII word characters), one non-ASCII character inserted next to an identifier, and token soup; parsed by parol::parser::parol_parser::parse in the harness and by parol_ls_parser::parse through the cfg(parol_verif) batch mode of the real parol-ls binary; a pair is compared only when both results are in {Ok, syntax/lexer error}; pairs where a semantic action aborted a parse are inconclusive; non-trivial = comparable pair; distinct by text";
     let min = if quick { 3000 } else { 60000 };
     finish(ctx, rep, rule, (min as f64 * ctx.scale) as u64, json!({}), t0.elapsed().as_secs_f64())
 }
